@@ -480,7 +480,10 @@ def rule_fl_flags(cx, rep, port):
                 msgs = [c for c in ast.walk(ast.Module(body=iff.body, type_ignores=[])) if isinstance(c, ast.Call) and isinstance(c.func, ast.Attribute) and c.func.attr in ('append', 'push')]
                 msg_ok = pos and len(msgs) == 1 and word.lower() in node_text(msgs[0], 500).lower()
         rep.decide(ok_read and msg_ok, key + ' report', gw_reads[0] if gw_reads else gw, 'get_warnings reports the {} warning iff the flag is set'.format(word), 'get_warnings does not report the {} warning exactly when the flag is set (negated test, missing read or wrong message)'.format(word))
-        if condfn is not None:
+        if condfn is _cond_none and _normalize_model(cx, port) is not None:
+            nm = _normalize_model(cx, port)
+            rep.decide(nm == '', key + ' set-sites', cls, 'set exactly when a missing value is written as empty text (normalize_fields evaluated on five records)', nm)
+        elif condfn is not None:
             if not others:
                 rep.violated(key + ' set-sites', cls, 'the flag is never set: the {} warning can never appear'.format(word))
             for m, n in others:
@@ -525,6 +528,71 @@ def _enclosing_if(n):
             return par, (iff in par.body)
         iff = par
     return None, None
+
+
+def _normalize_model(cx, port):
+    """CSVWriter.normalize_fields evaluated on records with text, a missing value, a number, nested lists (with a missing value inside) and on
+    a record without missing values: problem text / '' / None (outside the abstract interpreter); computed once"""
+    memo = '_normalize_model_' + port
+    if hasattr(cx, memo):
+        return getattr(cx, memo)
+    from .. import absexec as AX
+    p = cx.port(port)
+    cls = p.cls('rbql_csv', 'CSVWriter')
+    nf = [x for x in cls.body if isinstance(x, ast.FunctionDef) and x.name == 'normalize_fields']
+    flag = 'none_in_output' if port == 'py' else 'null_in_output'
+    res = None
+    try:
+        if len(nf) != 1 or len(nf[0].args.args) != 2:
+            raise Undecided('normalize_fields not found', cls)
+        out = ''
+        for fields, want_py, want_js, want_flag in (
+                (['s', None, 5, ['x', None, 7, ['y']], ''], ['s', '', '5', 'x||7|y', ''], ['s', '', 5, 'x||7|y', ''], True),
+                (['a', 3, ['b', 'c'], []], ['a', '3', 'b|c', ''], ['a', 3, 'b|c', ''], False),
+                ([None], [''], [''], True), ([[None]], [''], [''], True), ([], [], [], False)):
+            selfv = AX.Abs('Self')
+            init = {flag: False, 'sub_array_delim': '|'}
+
+            def on_attr(ex, node, obj, attr, init=init):
+                if obj is selfv and attr in init:
+                    return init[attr]
+                return AX.NOT_HANDLED
+
+            def on_name(ex, node, name):
+                if name == 'PY3':
+                    return True
+                if name in ('basestring', 'unicode'):
+                    return ('builtin', 'str')
+                if name == 'polymorphic_xrange':
+                    return ('builtin', 'range')
+                return AX.NOT_HANDLED
+
+            def on_call(ex, node, fname, recv, args):
+                if fname == 'Array.isArray' and len(args) == 1:
+                    return isinstance(args[0], list)
+                if fname == 'String' and len(args) == 1 and isinstance(args[0], (int, str)) and not isinstance(args[0], bool):
+                    return str(args[0])
+                return AX.NOT_HANDLED
+            import copy
+            data = copy.deepcopy(fields)
+            ex = AX.Explorer(p, 'rbql_csv', on_call=on_call, on_attr=on_attr, on_name=on_name, max_choices=1)
+            runs, cut = ex.explore(nf[0], [selfv, data], cls='CSVWriter')
+            if cut or len(runs) != 1 or runs[0].outcome[0] != 'return':
+                raise Undecided('normalize_fields does not complete on {!r}'.format(fields), nf[0])
+            want = want_py if port == 'py' else want_js
+            got_flag = runs[0].state.get((selfv.uid, flag), False)
+            if data != want and not out:
+                out = 'the record {!r} is written as {!r} instead of {!r}'.format(fields, data, want)
+            if bool(got_flag) != want_flag and not out:
+                out = ('the record {!r} contains a missing value that is written as empty text, but {} is not set: the "None values in output" warning is lost' if want_flag else 'the record {!r} contains no missing value but {} is set').format(fields, flag)
+        res = out
+    except (Undecided, AX.Cut, AX._NeedChoice, AX.Raised, KeyError, IndexError, TypeError, AttributeError, ValueError) as e_:
+        import os
+        if os.environ.get('RBQL_VERIF_DEBUG'):
+            print('normalize_fields model gave up:', type(e_).__name__, e_)
+        res = None
+    setattr(cx, memo, res)
+    return res
 
 
 def _cond_none(p, cls, m, n, port):
@@ -702,6 +770,11 @@ def rule_fl_none_complete(cx, rep, port):
     p = cx.port(port)
     cls = p.cls('rbql_csv', 'CSVWriter')
     flag = 'none_in_output' if port == 'py' else 'null_in_output'
+    nm = _normalize_model(cx, port)
+    if nm is not None:
+        rep.decide(nm == '', 'normalize_fields', cls, 'every missing value - nested ones included - becomes empty text and sets ' + flag + ' (normalize_fields evaluated on five records)', nm)
+        return
+    rep._fallback = 'normalize_fields is outside the abstract interpreter'
     n = 0
     for m in [x for x in cls.body if isinstance(x, ast.FunctionDef)]:
         for iff in walk_no_nested(m):
